@@ -597,6 +597,77 @@ theorem slice_wrap_feature_count (s : Seq) (a b : Int) (hb : 0 ≤ b) (hba : b <
   rw [((C04.rotate_table_perm s (-a)).filter _).length_eq, List.filter_map, List.length_map]
   rfl
 
+/-! ### the full-length feature (`source 1..L`) under a wrap-around window
+
+`normOk` keeps the whole-sequence range out of every `slice_wrap_*_partial` theorem above (it fails for
+every rotation amount, see `C04.rotate_full_length`).  What the code does with it: the rotation leaves it
+`[0, L)` (C04), the forward cut `[0, W)`, `W = L - a + b`, clips it to the whole window. -/
+
+/-- the forward cut `Expand(W, W-L)`, `Expand(0, -0)` of the whole-sequence range is the whole window
+`[0, W)`, the 5' marker kept, the 3' marker set (`0 < W < L`) -/
+theorem cut_full_length (p5 p3 : Bool) (W L : Int) (h0 : 0 < W) (hWL : W < L) :
+    ((ranged 0 L p5 p3).expand W (W - L)).expand 0 (-0) = ranged 0 W p5 true := by
+  have hn : ¬ (W - L = 0) := by omega
+  have f1 : ¬ (W - L < 0 ∧ W ≤ 0 ∧ 0 < W - (W - L)) := by omega
+  have t2 : (W - L < 0 ∧ W < L ∧ L ≤ W - (W - L)) := by omega
+  have c1 : ¬ ((0 ≤ W - L ∧ W ≤ 0) ∨ (W - L < 0 ∧ W < 0)) := by omega
+  have c2 : (0 ≤ W - L ∧ W < L) ∨ (W - L < 0 ∧ W ≤ L) := by omega
+  have g2 : gmax W (L + (W - L)) = W := by unfold gmax; split <;> omega
+  simp only [expand, rangedExpand, if_neg hn, if_neg f1, if_pos t2, if_neg c1, if_pos c2, g2]
+  rw [if_neg (by omega)]
+  simp [expand, rangedExpand]
+
+/-- **Slice (wrap-around window), the full-length feature**: with `0 ≤ b < a ≤ L` and a non-empty window
+(`W = L - a + b > 0`) a feature whose location is the whole-sequence range (either strand) is a feature of
+the slice, with unchanged key and qualifiers, located at the WHOLE window `[0, W)` (same strand): `source`
+(the case of every GenBank record) completed — no partial marker; any other key with its 5' marker kept and
+the 3' marker set.  No K2 / `normOk` guard.  So the new location denotes exactly the residues of the window
+(the same SET as the feature's former residues inside `[a,L) ++ [0,b)` at `(x - a) mod L`), read from
+window position 0: the reading start is lost as in `C04.rotate_full_length_same_set`, and for a non-`source`
+full-length feature the marker goes to the 3' end whichever residues were cut (with `b = 0` the residues cut
+off, `[0, a)`, are the 5' ones of the original reading) — a consequence of "a full-length feature stays
+full-length" in the rotation step, noted here, not a recorded finding. -/
+theorem slice_wrap_full_length_feature (s : Seq) (a b : Int) (hb : 0 ≤ b) (hba : b < a) (haL : a ≤ s.len)
+    (hW : 0 < s.len - a + b) (f : Feature) (hf : f ∈ s.feats) (p5 p3 : Bool)
+    (hloc : f.loc = ranged 0 s.len p5 p3 ∨ f.loc = compl (ranged 0 s.len p5 p3)) :
+    ∃ f' ∈ (s.slice a b).feats, f'.key = f.key ∧ f'.props = f.props ∧
+      f'.loc = (if f.key = "source" then Loc.asComplete else id)
+        (match f.loc with
+          | compl _ => compl (ranged 0 (s.len - a + b) p5 true)
+          | _ => ranged 0 (s.len - a + b) p5 true) := by
+  have hL : 0 < s.len := by omega
+  have hfl : C04.fullLength s.len f.loc = true := by
+    rcases hloc with h | h <;> rw [h] <;> simp [C04.fullLength]
+  have hm := C04.rotate_full_length_feature s (-a) hL f hf hfl
+  rw [slice_wrap_eq s a b (by omega) hb hba]
+  unfold Seq.sliceFwd
+  have hlen := rotate_len s (-a) hL
+  have hcut := cut_full_length p5 p3 (s.len - a + b) s.len hW (by omega)
+  have ro : rangeOverlap 0 s.len 0 (s.len - a + b) = true := by
+    unfold rangeOverlap
+    rw [if_neg (by omega), if_neg (by omega)]
+    simp only [Bool.and_eq_true, decide_eq_true_eq]; omega
+  have hov : f.loc.overlap 0 (s.len - a + b) = true := by
+    rcases hloc with h | h <;> rw [h] <;> simp only [overlap] <;> exact ro
+  refine ⟨_, List.mem_map_of_mem (List.mem_filter.mpr ⟨hm, hov⟩), rfl, rfl, ?_⟩
+  simp only [hlen]
+  rcases hloc with h | h
+  · rw [h, hcut]; by_cases hs : f.key = "source" <;> simp [hs]
+  · have hcut' : ((compl (ranged 0 s.len p5 p3)).expand (s.len - a + b) (s.len - a + b - s.len)).expand 0 (-0)
+        = compl (ranged 0 (s.len - a + b) p5 true) := by
+      show compl (((ranged 0 s.len p5 p3).expand (s.len - a + b) (s.len - a + b - s.len)).expand 0 (-0)) = _
+      rw [hcut]
+    rw [h, hcut']; by_cases hs : f.key = "source" <;> simp [hs]
+
+/-- non-vacuity: `source 1..10` and a complement-strand full-length `misc_feature`, window `Slice(seq, 8, 4)` -/
+example :
+    let s : Seq := ⟨[⟨"source", ranged 0 10 false false, []⟩, ⟨"misc_feature", compl (ranged 0 10 true false), []⟩],
+      [97, 99, 103, 116, 97, 99, 103, 116, 97, 99]⟩
+    (0 : Int) ≤ 4 ∧ (4 : Int) < 8 ∧ 8 ≤ s.len ∧ 0 < s.len - 8 + 4 ∧
+    normOk s.len (expand (ranged 0 10 false false) 0 (C04.rotN (-8) s.len)) = false ∧
+    (s.slice 8 4).feats.map (fun f => (f.key, f.loc.den.map (·.1))) =
+      [("source", [0, 1, 2, 3, 4, 5]), ("misc_feature", [5, 4, 3, 2, 1, 0])] := by decide
+
 /-- **negative indices, as the code treats them**: `Slice` first adds the length to a negative
 `start` / `end` (once); from `-L` upwards that is all the sign does -/
 theorem slice_neg_norm (s : Seq) (a b : Int) (ha : 0 ≤ Bridge.sliceNorm s.len a)
